@@ -17,6 +17,10 @@ sys.path.insert(0, VERIF)
 import checks  # noqa: E402
 
 
+DEFAULT_MODELS = {"fmt.Fprintf": MODULE + "/zz_verifmodel.Fprintf", "fmt.Fprint": MODULE + "/zz_verifmodel.Fprint",
+                  "fmt.Fprintln": MODULE + "/zz_verifmodel.Fprintln"}
+
+
 def sh(cmd, **kw):
     return subprocess.run(cmd, **kw)
 
@@ -221,12 +225,17 @@ def run_check(pid, tier):
         gj = {"id": "%s-%d" % (pid, n), "package": MODULE + "/" + j["pkgdir"], "func": j["func"],
               "params": j.get("params", {}), "math": j.get("math", False), "witnesses": j.get("witnesses", 2),
               "known_ids": known_ids, "timeout_s": j.get("timeout_s", 600 if tier == "quick" else 3000)}
+        # the Go fmt model is always available: a change to the code under test may start using fmt
+        gj["models"] = dict(DEFAULT_MODELS)
         for k in ("sched", "preempt", "max_paths", "max_instrs", "unwind", "split_cap", "max_violations", "models",
                   "init_allow", "noifconv", "solver", "oneshot_min", "fsmodel", "max_faults"):
             if k in j:
-                gj[k] = j[k]
+                if k == "models":
+                    gj["models"].update(j[k])
+                else:
+                    gj[k] = j[k]
         gjobs.append(gj)
-    patterns = sorted({"./" + pd for pd in pkgdirs} | set(spec.get("extra_patterns", [])))
+    patterns = sorted({"./" + pd for pd in pkgdirs} | set(spec.get("extra_patterns", [])) | {"./zz_verifmodel"})
     sp = {"repo": REPO, "overlay": overlay, "patterns": patterns, "jobs": gjobs,
           "workers": int(os.environ.get("VERIF_WORKERS", "14"))}
     spf = os.path.join(gen, "spec.json")
